@@ -51,7 +51,7 @@ class C16(Prop):
     rule = ('exhaustive short texts (<= tier bound lines) over {a, TAB, wide char, zero-width characters, line ending} with all canonical spans as display and '
             'highlight spans (empty, within a line, ending at a line end, spanning 2..n lines, starting at column 0 or mid-line), '
             '1-3 highlights per display, 1-2 displays, every message type, named/unnamed, code id on/off, LF/CR/CRLF, plus long texts '
-            'reaching line numbers 9/10/11, 99/100/101, 999/1000/1001; the plain and the coloured rendering are compared byte for byte with the two models and the plain one is '
+            'reaching line numbers 9/10/11, 99/100/101, 999/1000/1001 (LF with one highlight; CR / CRLF / LF with 2-3 highlights, tabs, tab widths 2/4/8 and a second display with a narrower gutter); the plain and the coloured rendering are compared byte for byte with the two models and the plain one is '
             'parsed back by a layout oracle (lines shown once/in order/verbatim/labelled, gutter separator column, mark columns and '
             'widths, riser continuity); coloured-stripped == plain and owned == borrowed are checked by the harness on the real '
             'strings; non-trivial = a display with a multi-line highlight or a line number >= 10; distinct by case')
@@ -103,6 +103,29 @@ class C16(Prop):
                 a = byline[l0][r.below(len(byline[l0]))]; b = byline[l1][-1 - r.below(len(byline[l1]))]
                 if a > b: a, b = b, a
                 add('lf', 4, text, [(P[a], P[b], [('error', 1, P[a], P[b])])])
+            # the same line numbers under CR / CRLF, with 2-3 highlights (mid-line starts, risers crossing the power of ten) and a
+            # second display on an early line (its own, narrower gutter)
+            le2 = ['cr', 'crlf', 'lf'][target % 3]
+            text2 = []
+            for i in range(target + 2):
+                text2 += (['a', 'b', 'TAB', 'a'] if i % 4 == 1 else ['a', 'b']) if i % 3 else ['a']
+                text2 += lb[le2]
+            tabv = r.choice([2, 4, 8])
+            P2 = spangen.canon_positions(text2, le2, tabv)
+            by2 = {}
+            for idx, p in enumerate(P2):
+                by2.setdefault(p[1], []).append(idx)
+            lo_l, hi_l = max(0, target - 2), target + 1
+            a = by2[lo_l][0]; b = by2[hi_l][-1]
+            hls = []
+            for _ in range(2 + r.below(2)):
+                x = a + r.below(b - a + 1); y = x + r.below(b - x + 1)
+                hls.append((r.choice(TYPES), r.below(9), P2[x], P2[y]))
+            disp = [(P2[a], P2[b], hls)]
+            if r.chance(1, 2):
+                k0 = by2[1][0]
+                disp.append((P2[k0], P2[k0], [('note', 2, P2[k0], P2[k0])]))
+            add(le2, tabv, text2, disp)
         return out
 
     def nontrivial(self, ct, it):
@@ -133,8 +156,9 @@ class C16(Prop):
         # split the output into display blocks at the "-->" header rows; output rows end with '\n' (source rows may contain
         # lone CR/LF characters of a different line-ending style: use the known structure instead of splitting blindly)
         rows = out.split('\n')
-        if c['le'] != 'lf' and ('\n' in text):
-            return fails           # lone LF inside a source row makes row splitting ambiguous: layout oracle not applied
+        lone_lf = ('\n' in text.replace('\r\n', '')) if c['le'] == 'crlf' else (c['le'] == 'cr' and '\n' in text)
+        if lone_lf:
+            return fails           # a lone LF INSIDE a source row makes row splitting ambiguous: layout oracle not applied
         blocks = []
         for row in rows[1:]:
             if re.match(r'^ *--> ', row):
@@ -211,8 +235,8 @@ class C16(Prop):
                     if not er.endswith(' m%d' % mid):
                         fails.append((None, 'multi-line highlight %s..%s: end mark row %r lacks its message' % (a, b, er)))
                     pos_caret = er.find('^', rk)
-                    if b[2] > 0 and pos_caret != off + b[2] - 1:
-                        fails.append((None, 'multi-line highlight %s..%s: end mark in column %d, expected column %d (last covered column)' % (a, b, pos_caret - off, b[2] - 1)))
+                    if pos_caret != off + max(b[2] - 1, 0):
+                        fails.append((None, 'multi-line highlight %s..%s: end mark in column %d, expected column %d (last covered column; column 0 for a highlight ending at a line start)' % (a, b, pos_caret - off, max(b[2] - 1, 0))))
                     if a[2] == 0:
                         start_row_idx = [idx_ for idx_, (kind, ln, r_) in enumerate(order) if kind == 'src' and ln == a[1]][0]
                         if order[start_row_idx][2][rk] != '/':
